@@ -157,7 +157,8 @@ FM_LIB_DOC = [
     'put_nowait -> QueueFull', 'get_nowait -> QueueEmpty', 'asyncio.wait_for -> TimeoutError (+ what the awaited task raises)',
     'asyncio.get_running_loop -> RuntimeError', 'pydantic model_validate / TypeAdapter / validate_python / model_dump_json -> Exception',
     'anyio.open_file / write / mkdir -> OSError', 'issubclass(non-class, ..) -> TypeError', 'every await -> CancelledError',
-    'await inside `async with asyncio.timeout(..)` -> TimeoutError', 'all other library calls: assumed not to raise',
+    'await inside `async with asyncio.timeout(..)` -> TimeoutError',
+    'sort / sorted / min / max keyed by a caller-supplied datetime field itself (naive and aware values do not compare) -> TypeError', 'all other library calls: assumed not to raise',
     'assert statements: assumed to hold',
 ]  # fmt: skip
 
@@ -398,7 +399,31 @@ class FaultModel:
             if name == 'write' and not isinstance(parent(c), ast.Await):
                 return set()
             return set(FM_LIB[name])
+        if name in ('sort', 'sorted', 'min', 'max') and self._orders_by_raw_datetime(c):
+            return {ExcT('TypeError')}
         return set()
+
+    def _caller_supplied_datetime_fields(self) -> set[str]:
+        """Model fields of the event class annotated plain `datetime`: a caller may construct an event with a timezone-naive or a timezone-aware value."""
+        hit = self._spec_memo.get('__dt_fields')
+        if hit is None:
+            hit = set()
+            ci = self.prog.classes.get('BaseEvent')
+            if ci is not None:
+                for st in ci.node.body:
+                    if isinstance(st, ast.AnnAssign) and isinstance(st.target, ast.Name) and U(st.annotation) == 'datetime':
+                        hit.add(st.target.id)
+            self._spec_memo['__dt_fields'] = hit
+        return hit
+
+    def _orders_by_raw_datetime(self, c: ast.Call) -> bool:
+        """sort / sorted / min / max whose key is (or contains, as a tuple element) such a field itself, not a number derived from it: comparing a naive with an aware value raises TypeError."""
+        fields = self._caller_supplied_datetime_fields()
+        key = next((k.value for k in c.keywords if k.arg == 'key'), None)
+        if not fields or not isinstance(key, ast.Lambda):
+            return False
+        elems = key.body.elts if isinstance(key.body, ast.Tuple) else [key.body]
+        return any(isinstance(e, ast.Attribute) and e.attr in fields for e in elems)
 
     def await_raises(self, a: ast.Await, u: Unit) -> set[ExcT]:
         """Exceptions re-raised from the awaited object (a task wrapping an opaque callback, wait_for(task), ...)."""
